@@ -296,7 +296,7 @@ class SymPaths:
         if key in cache:
             return cache[key]
         out = self._syntactic(b)
-        if out is None and (self._hyp_syms() & self._syms_of_bool(b)):
+        if out is None:
             out = self._lin_entailed(b)
         cache[key] = out
         return out
